@@ -32,7 +32,12 @@ func cliImportCase(run *ev.Run, mu *sync.Mutex, g *Guard, regctl, binDir string,
 	}
 	defer os.Remove(tarFile)
 	tag := c.tgtTag
-	if strings.ContainsAny(tag, "/\x00:@ ") || len(tag) > 128 || tag == ".." || tag == "" {
+	// a tag with a path separator can be typed (or, in regsync, pasted together from a registry's tag listing):
+	// <layout>:<tag> must then be refused as a reference, not re-read as a longer path
+	keepSlash := strings.Contains(tag, "/") && !strings.ContainsAny(tag, "\x00@ ") && len(tag) <= 128
+	if keepSlash {
+		run.Count("cli_import_refs_with_separator_in_tag", 1)
+	} else if strings.ContainsAny(tag, "/\x00:@ ") || len(tag) > 128 || tag == ".." || tag == "" {
 		tag = "imported" // not spellable on the command line
 	}
 	args := []string{"image", "import"}
